@@ -6,6 +6,7 @@ import (
 	"os"
 	"os/exec"
 	"path/filepath"
+	"runtime/debug"
 	"sort"
 	"strings"
 	"time"
@@ -208,3 +209,35 @@ func diffFileSets(want, got map[string][]byte) string {
 	}
 	return ""
 }
+
+// realOp runs fn (a public-API call on the real directory), capturing
+// panics; paths in error texts are stripped of the scratch root so that
+// logs stay deterministic.
+func (r *Run) realOp(rw *RealWorld, op string, fn func(res *OpResult)) *OpResult {
+	res := &OpResult{Op: op}
+	before := rw.Tree()
+	func() {
+		defer func() {
+			if x := recover(); x != nil {
+				if vp, ok := x.(violationPanic); ok {
+					panic(vp)
+				}
+				res.Panic = strings.Replace(fmt.Sprintf("%v\n%s", x, trimStack(debugStack())), rw.Root, "", -1)
+			}
+		}()
+		fn(res)
+	}()
+	if res.Err != nil {
+		res.Err = fmt.Errorf("%s", strings.Replace(res.Err.Error(), rw.Root, "", -1))
+	}
+	after := rw.Tree()
+	res.Before, res.After = before, after
+	for i, p := range res.Repaired {
+		res.Repaired[i] = strings.TrimPrefix(p, rw.Root)
+	}
+	r.Logf("realop %s -> %s", op, res.errString())
+	r.Count("op:" + strings.SplitN(op, " ", 2)[0])
+	return res
+}
+
+func debugStack() []byte { return debug.Stack() }
